@@ -28,6 +28,13 @@ pub struct Case {
     pub tape: B,
     /// direction B: leave StmF/StrF out of the dictionary when they are the predefined Identity
     pub omit_identity_names: bool,
+    /// direction B: render with object streams (strings inside them are not encrypted individually, the container is)
+    #[serde(default)]
+    pub objstm: bool,
+    /// with object streams: an indirect /Length may be stored inside an encrypted object stream (known finding
+    /// C06-length-in-encrypted-objstm)
+    #[serde(default)]
+    pub length_in_objstm: bool,
 }
 
 // ------------------------------------------------------------------ the reference's view of an encryption dictionary
@@ -282,8 +289,36 @@ pub struct RefEncrypted {
     pub objects: Vec<(u32, u16, AObj)>,
 }
 
+/// the reference security handler set up for one document: encryption dictionary, file key, IV source
+pub struct RefHandler {
+    pub encrypt_dict: ADict,
+    pub info: EncInfo,
+    pub key: Vec<u8>,
+    rng: std::cell::RefCell<Rng>,
+}
+
+impl RefHandler {
+    /// strings and streams of the indirect object (num, gen) encrypted as Algorithm 1 / 1.A prescribe
+    pub fn encrypt_object(&self, num: u32, gen: u16, o: &AObj) -> Result<AObj, String> {
+        let enc = |cipher: Cipher, key: &[u8], num: u32, gen: u16, data: &[u8], _p: &str| -> Result<Vec<u8>, String> {
+            let iv: [u8; 16] = self.rng.borrow_mut().bytes();
+            Ok(sec::encrypt_data(cipher, key, num, gen, &iv, data))
+        };
+        self.info.transform(&self.key, num, gen, o, &enc, "")
+    }
+}
+
 /// encrypt an abstract document with the reference handler
 pub fn ref_encrypt(cfg: &Config, cdoc: &CDoc, seed: u64, omit_identity_names: bool) -> Result<RefEncrypted, String> {
+    let h = ref_handler(cfg, seed, omit_identity_names)?;
+    let mut objects = vec![];
+    for (n2, g, o) in &cdoc.objects {
+        objects.push((*n2, *g, h.encrypt_object(*n2, *g, o)?));
+    }
+    Ok(RefEncrypted { encrypt_dict: h.encrypt_dict, objects })
+}
+
+pub fn ref_handler(cfg: &Config, seed: u64, omit_identity_names: bool) -> Result<RefHandler, String> {
     let mut rng = Rng(seed ^ 0x9E37_79B9_7F4A_7C15);
     let r = cfg.revision();
     let n = cfg.key_len_bytes();
@@ -363,16 +398,7 @@ pub fn ref_encrypt(cfg: &Config, cdoc: &CDoc, seed: u64, omit_identity_names: bo
         }
     }
     let info = parse_encrypt(&d)?;
-    let rng_cell = std::cell::RefCell::new(rng);
-    let enc = |cipher: Cipher, key: &[u8], num: u32, gen: u16, data: &[u8], _p: &str| -> Result<Vec<u8>, String> {
-        let iv: [u8; 16] = rng_cell.borrow_mut().bytes();
-        Ok(sec::encrypt_data(cipher, key, num, gen, &iv, data))
-    };
-    let mut objects = vec![];
-    for (n2, g, o) in &cdoc.objects {
-        objects.push((*n2, *g, info.transform(&key, *n2, *g, o, &enc, "")?));
-    }
-    Ok(RefEncrypted { encrypt_dict: d, objects })
+    Ok(RefHandler { encrypt_dict: d, info, key, rng: std::cell::RefCell::new(rng) })
 }
 
 pub fn check_b(case: &Case) -> Verdict {
@@ -394,22 +420,48 @@ pub fn check_b(case: &Case) -> Verdict {
         open_and_compare(&info, cfg, &cdoc, &objs, (0, 0), "reference self-check").map_err(|v| Violation::new("harness-ref-selfcheck", v.detail))?;
     }
     let enc_num = cdoc.objects.iter().map(|o| o.0).max().unwrap_or(0) + 1;
-    let mut objects = re.objects.clone();
+    let mut objects = if case.objstm { cdoc.objects.clone() } else { re.objects.clone() };
     objects.push((enc_num, 0, AObj::Dict(re.encrypt_dict.clone())));
     let id = AObj::Array(vec![AObj::Str(cfg.id0.clone(), true), AObj::Str(B(fnv64(&cfg.id0.0).to_le_bytes().to_vec()), true)]);
     let wf = WFile {
         version: "1.7".into(),
         binary_mark: B(vec![0xe2, 0xe3, 0xcf, 0xd3]),
         junk: B(vec![]),
-        xref_stream: case.xref_stream,
-        objstm: false,
+        xref_stream: case.xref_stream || case.objstm,
+        objstm: case.objstm,
         revisions: vec![WRevision { objects, trailer: vec![(B::from("Encrypt"), AObj::Ref(enc_num, 0)), (B::from("ID"), id)] }],
         tape: case.tape.clone(),
         raw_eol_in_strings: false,
         quirks: 0,
     };
-    let out = writer::write(&wf);
-    strict::read(&out.bytes).map_err(|e| viol!("harness-ref-writer-invalid", "rule {}: {}", e.rule, e.msg))?;
+    let out = if case.objstm {
+        // encryption happens while writing: objects inside object streams stay plain, the containers are encrypted.
+        // The strict reader cannot look into encrypted containers; it checks the unencrypted rendering of the same file
+        // (same tape, same layout decisions) instead.
+        let ident = |_n: u32, _g: u16, o: &AObj| o.clone();
+        let plain = writer::write_with(&wf, Some(&writer::WEnc { f: &ident, skip: [enc_num].into_iter().collect(), length_in_objstm: case.length_in_objstm }));
+        strict::read(&plain.bytes).map_err(|e| viol!("harness-ref-writer-invalid", "rule {}: {}", e.rule, e.msg))?;
+        let h = ref_handler(cfg, case.seed, case.omit_identity_names).map_err(|e| viol!("harness-ref-encrypt", "{}", e))?;
+        let failed = std::cell::RefCell::new(None);
+        let f = |n: u32, g: u16, o: &AObj| match h.encrypt_object(n, g, o) {
+            Ok(x) => x,
+            Err(e) => {
+                *failed.borrow_mut() = Some(e);
+                o.clone()
+            }
+        };
+        let out = writer::write_with(&wf, Some(&writer::WEnc { f: &f, skip: [enc_num].into_iter().collect(), length_in_objstm: case.length_in_objstm }));
+        if let Some(e) = failed.borrow_mut().take() {
+            return Err(viol!("harness-ref-encrypt", "{}", e));
+        }
+        out
+    } else {
+        let out = writer::write(&wf);
+        strict::read(&out.bytes).map_err(|e| viol!("harness-ref-writer-invalid", "rule {}: {}", e.rule, e.msg))?;
+        out
+    };
+    rep.label_if(out.features.contains("objstm"), "encrypted-object-streams");
+    rep.label_if(case.objstm && out.features.contains("indirect-length-in-objstm"), "length-in-encrypted-object-stream");
     let user_empty = cfg.effective(&cfg.user_pw).is_empty();
     for (who, pw) in [("user", &cfg.user_pw), ("owner", &cfg.owner_pw)] {
         let kind_open = if who == "user" { "lopdf-cannot-open-user" } else { "lopdf-cannot-open-owner" };
@@ -479,14 +531,37 @@ pub fn check(case: &Case) -> Verdict {
     Ok(rep)
 }
 
+/// known finding C06-length-in-encrypted-objstm: the failure disappears when the length holder is kept out of the
+/// object streams, everything else equal
+pub fn classify(case: &Case, _v: &Violation) -> Option<&'static str> {
+    if case.objstm && case.length_in_objstm {
+        let mut c = case.clone();
+        c.length_in_objstm = false;
+        if check(&c).is_ok() {
+            return Some("C06-length-in-encrypted-objstm");
+        }
+    }
+    None
+}
+
+pub fn strategy_with(sw: Switches, length_in_objstm: bool) -> BoxedStrategy<Case> {
+    strategy(sw).prop_map(move |mut c| {
+        c.length_in_objstm = length_in_objstm;
+        if length_in_objstm {
+            c.objstm = true;
+        }
+        c
+    }).boxed()
+}
+
 pub fn strategy(sw: Switches) -> BoxedStrategy<Case> {
-    (super::c05::strategy(sw), any::<u64>(), proptest::collection::vec(any::<u8>(), 0..200), any::<bool>())
-        .prop_map(|(c, seed, tape, omit)| Case { cfg: c.cfg, doc: c.doc, xref_stream: c.xref_stream, seed, tape: B(tape), omit_identity_names: omit })
+    (super::c05::strategy(sw), any::<u64>(), proptest::collection::vec(any::<u8>(), 0..200), any::<bool>(), prop_oneof![2 => Just(false), 1 => Just(true)])
+        .prop_map(|(c, seed, tape, omit, objstm)| Case { cfg: c.cfg, doc: c.doc, xref_stream: c.xref_stream, seed, tape: B(tape), omit_identity_names: omit, objstm, length_in_objstm: false })
         .boxed()
 }
 
 pub fn run(run: &mut Run) {
-    run.rule = "parameter tuples: revision 2,3,4,5,6 x key length (40..128 for V2) x crypt filters RC4 / AESV2 / AESV3 / None incl. the predefined Identity and per-stream Crypt overrides x EncryptMetadata x conforming permission words x user/owner passwords (empty owner, empty user, long, non-ASCII) x file identifiers x salts/IVs x documents with strings (also inside stream dictionaries) and streams. Direction A: lopdf builds the state and encrypts; an independent implementation of ISO 32000 Algorithms 1-13 over own MD5/SHA-2/AES/RC4 reads /Encrypt and the ciphertexts from memory and, through the strict reader, from the saved file, authenticates user AND owner password, validates /Perms and must decrypt to the plaintext. Direction B: the reference handler encrypts, the reference writer renders (random style), lopdf load_mem + decrypt(user) / decrypt(owner) must yield the plaintext. The reference first opens its own output (harness error otherwise). non-trivial = both directions executed with >= 1 non-empty string and >= 1 non-empty stream; distinct by case hash.".into();
+    run.rule = "parameter tuples: revision 2,3,4,5,6 x key length (40..128 for V2) x crypt filters RC4 / AESV2 / AESV3 / None incl. the predefined Identity and per-stream Crypt overrides x EncryptMetadata x conforming permission words x user/owner passwords (empty owner, empty user, long, non-ASCII) x file identifiers x salts/IVs x documents with strings (also inside stream dictionaries) and streams. Direction A: lopdf builds the state and encrypts; an independent implementation of ISO 32000 Algorithms 1-13 over own MD5/SHA-2/AES/RC4 reads /Encrypt and the ciphertexts from memory and, through the strict reader, from the saved file, authenticates user AND owner password, validates /Perms and must decrypt to the plaintext. Direction B: the reference handler encrypts, the reference writer renders (random style; in a third of the cases with object streams, whose members stay plain while the container is encrypted), lopdf load_mem + decrypt(user) / decrypt(owner) must yield the plaintext. The reference first opens its own output (harness error otherwise). non-trivial = both directions executed with >= 1 non-empty string and >= 1 non-empty stream; distinct by case hash.".into();
     run.assumptions = vec![
         "REF-SEC implements the algorithms as summarised in DESIGN.md Appendix A.1 (round counting of 2.B as deployed readers do); primitives carry known-answer tests".into(),
         "passwords over alphabets whose preparation is known independently (see C05)".into(),
@@ -495,7 +570,12 @@ pub fn run(run: &mut Run) {
     run.replay_known_demos(replay);
     let sw = super::c05::switches(run);
     let n = run.tier.pick(4_000, 120_000);
-    run.campaign("both-directions", move || strategy(sw), n, check, |_c, _v| None);
+    let open = run.finding_open("C06-length-in-encrypted-objstm");
+    run.campaign("both-directions", move || strategy_with(sw, false).prop_map(move |mut c| { c.length_in_objstm = !open && c.objstm; c }), n, check, classify);
+    if open {
+        // focused campaign with only this finding's construct on: every failure must match the finding's key
+        run.campaign("focused-length-in-encrypted-objstm", move || strategy_with(sw, true), run.tier.pick(400, 4000), check, classify);
+    }
 }
 
 pub fn replay(file: &Value) -> Result<Verdict, String> {
